@@ -132,10 +132,18 @@ Definition ev_measure (q : nat) (inplace : bool) (e : est) : option (Z * est) :=
   end.
 
 Definition loop_count (start stop step : Z) : option nat :=
-  if step <=? 0 then None
-  else if stop <? start then None
-  else if negb ((stop - start) mod step =? 0) then None
-  else Some (Z.to_nat ((stop - start) / step)).
+  (* i = start, start+step, ... until i = stop.  A step that never lands on `stop`
+     (zero, wrong direction, or not dividing the distance) has no meaning: the SDK
+     documents "looping stops when the index reaches stop" and nothing else *)
+  if step =? 0 then None
+  else if 0 <? step then
+    (if stop <? start then None
+     else if negb ((stop - start) mod step =? 0) then None
+     else Some (Z.to_nat ((stop - start) / step)))
+  else
+    (if start <? stop then None
+     else if negb ((start - stop) mod (- step) =? 0) then None
+     else Some (Z.to_nat ((start - stop) / (- step)))).
 
 (* i = start, start+step, ...: n rounds *)
 Fixpoint iter_loop (f : Z -> est -> option est) (n : nat) (i step : Z) (e : est) : option est :=
@@ -223,12 +231,19 @@ Fixpoint eval_stmt (s : stmt) (e : est) {struct s} : option est :=
           match ev_sum v w m with Some z => Some (with_reg e (aset r z (e_reg e))) | None => None end
       | _, _ => None
       end
+  | SNewReg r init => Some (with_reg e (aset r init (e_reg e)))
+  | SUAdd r o m =>
+      match alookup r (e_reg e), ev_src o e with
+      | Some v, Some w =>
+          match ev_sum v w m with Some z => Some (with_reg e (aset r z (e_reg e))) | None => None end
+      | _, _ => None
+      end
   | SIf c cb x y body =>
       match ev_cval x e, (match c with CEz | CNz => Some 0 | _ => ev_cval y e end) with
       | Some a, Some b => if cond_true c a b then eval_block body e else Some e
       | _, _ => None
       end
-  | SLoop cb v start stop step body =>
+  | SLoop cb v _ start stop step body =>
       match loop_count start stop step with
       | Some n =>
           match iter_loop (fun i e' => eval_block body (bind_lv v i (drop_lv v e'))) n start step e with
@@ -267,7 +282,7 @@ with eval_block (b : block) (e : est) {struct b} : option est :=
 Fixpoint hoist_stmt (s : stmt) (ar : arrays) : arrays :=
   match s with
   | SMeasNew _ _ a => match alookup a ar with Some _ => ar | None => aset a [None] ar end
-  | SIf _ _ _ _ b | SLoop _ _ _ _ _ b | SForeach _ _ _ b | SEpr _ b => hoist_block b ar
+  | SIf _ _ _ _ b | SLoop _ _ _ _ _ _ b | SForeach _ _ _ b | SEpr _ b => hoist_block b ar
   | SLoopUntil _ _ b _ _ cl => hoist_block cl (hoist_block b ar)
   | _ => ar
   end
